@@ -675,7 +675,7 @@ PARTS = [
     Part("keys-that-carry-the-prefix", "enum", check, cases=nested_key_cases, exhaustive=True, minimise=minimise),
     Part("numbers-that-are-int-subclasses", "enum", check, cases=int_kind_cases, exhaustive=True, minimise=minimise),
     Part("random-histories", "hyp", check, strategy=lambda tier: history_strategy(tier).map(_drop_none_noreply),
-         examples={"quick": 500, "thorough": 15000}, shards={"quick": 6, "thorough": 16}),
+         examples={"quick": 500, "thorough": 4000}, shards={"quick": 6, "thorough": 16}),
 ]
 
 
